@@ -339,6 +339,13 @@ def run(F, R):
             if ok:
                 si = guards.switch_info(pv, exits[0][0])
                 ok = si is not None and "None" in si.edge_names(pv, exits[0][1])
+            if ok:
+                # no app is skipped: from the element edge of next() every way back to next() passes App::persist
+                some_t = [b_ for b_ in pv.succ[exits[0][0]] if b_ in L_]
+                back = [b_ for b_ in pv.reach_from(some_t, avoid=[calls_[0][0]]) if b_ in nexts]
+                if back:
+                    ok = False
+                    det += "; an app can be skipped (a path through the loop body avoids App::persist)"
         R.check("C09-R5", "persist-visits-every-app", ok, "App::persist awaited for every app of get_apps(): " + det, "AppSetExt::persist does not persist every app: " + det)
 
 
